@@ -102,7 +102,8 @@ def gen_domes(rng) -> Optional[str]:
     return f"{rng.randint(10000, 99999)}{rng.choice('MS')}{rng.randint(0, 999):03d}"
 
 
-PLATES = ["eurasian", "Eurasian", "NORTH AMERICAN", "pacific", "african", "nazca", None, None]
+PLATES = ["eurasian", "Eurasian", "NORTH AMERICAN", "pacific", "african", "nazca", None, None, None, None]
+ODD_PLATES = ["Somali"]
 
 
 def gen_site_info(rng, n: int) -> Dict[str, Any]:
@@ -115,7 +116,7 @@ def gen_site_info(rng, n: int) -> Dict[str, Any]:
         coord = NS(pos=NS(trs=NS(x=x, y=gen_coord(rng, allow_nan=False), z=gen_coord(rng, allow_nan=False))),
                    vel=[rng.choice([float("nan"), rng.uniform(-0.1, 0.1)]) if rng.random() < 0.1 else rng.uniform(-0.1, 0.1),
                         rng.uniform(-0.1, 0.1), rng.uniform(-0.1, 0.1)])
-        ident = NS(domes=gen_domes(rng), tectonic_plate=rng.choice(PLATES), source="snx", source_path=Path("/x/igs.snx"),
+        ident = NS(domes=gen_domes(rng), tectonic_plate=rng.choice(PLATES if rng.random() < 0.98 else ODD_PLATES), source="snx", source_path=Path("/x/igs.snx"),
                    name=rng.choice(["Argir, Torshavn", "Ny-Alesund", "A", "A very long station description text here"]),
                    country_code=rng.choice(["NOR", "FO", None]))
         t0 = datetime(1995 + rng.randint(0, 20), rng.randint(1, 12), rng.randint(1, 28), rng.choice([0, 12]), 0, 0)
@@ -252,6 +253,15 @@ def case_crd(run: Run, rng, vel: bool):
                 and (write_nan or not math.isnan((d["site_coord"]["last"].vel[0] if vel else d["site_coord"]["last"].pos.trs.x)))}
     if len(body) != len(expected):
         ctx.violate(f"{writer}:row-count", f"{len(expected)} stations with coordinates, {len(body)} lines written", case)
+    if vel:
+        # no matching parser in the library: the values are read off the text (blank-separated, as Bernese does)
+        for l, (k, d) in zip(body, sorted(expected.items())):
+            toks = l.split()
+            nums = [t for t in toks if t.replace("nan", "0").lstrip("-").replace(".", "", 1).isdigit() and "." in t or t == "nan"]
+            want = [float(v) for v in d["site_coord"]["last"].vel]
+            if toks[1].lower() != k or len(nums) != 3 or not all(near(float(a), b, 5) for a, b in zip(nums, want)):
+                ctx.violate("bernese_vel:values", f"{k}: velocity {want} written as {l.strip()!r}", case)
+                break
     if not vel:
         if len(widths) > 1:
             ctx.violate("bernese_crd:column-overflow", f"data lines of different lengths {sorted(widths)}: a value left its columns", case)
@@ -460,8 +470,26 @@ def gen_tms_dataset(rng):
     return d, sta, has_east
 
 
-TMS_ATTR = {  # DATA_FIELD_TYPES values are attribute paths into the dataset; this is the harness-side reading of them
+# What each TIMESERIES/DATA column *means* (written from the format description, independent of the writer's
+# DATA_FIELD_TYPES table): used by the read-back oracle only.
+TMS_MEANING = {
+    "YYYY-MM-DD": lambda d, i: d.time.utc.datetime[i].strftime("%Y-%m-%d"),
+    "YEAR": lambda d, i: d.time.utc.decimalyear[i],
+    "X": lambda d, i: np.asarray(d.obs.site_pos)[i][0], "Y": lambda d, i: np.asarray(d.obs.site_pos)[i][1],
+    "Z": lambda d, i: np.asarray(d.obs.site_pos)[i][2],
+    "SIG_X": lambda d, i: d.obs.site_pos_x_sigma[i], "SIG_Y": lambda d, i: d.obs.site_pos_y_sigma[i],
+    "SIG_Z": lambda d, i: d.obs.site_pos_z_sigma[i],
+    "CORR_XY": lambda d, i: d.obs.site_pos_xy_correlation[i], "CORR_XZ": lambda d, i: d.obs.site_pos_xz_correlation[i],
+    "CORR_YZ": lambda d, i: d.obs.site_pos_yz_correlation[i],
+    "EAST": lambda d, i: np.asarray(d.obs.dsite_pos)[i][0], "NORTH": lambda d, i: np.asarray(d.obs.dsite_pos)[i][1],
+    "UP": lambda d, i: np.asarray(d.obs.dsite_pos)[i][2],
+    "SIG_E": lambda d, i: d.obs.dsite_pos_east_sigma[i], "SIG_N": lambda d, i: d.obs.dsite_pos_north_sigma[i],
+    "SIG_U": lambda d, i: d.obs.dsite_pos_up_sigma[i],
+    "NOBSC": lambda d, i: d.obs.code_obs_num[i], "NOBSP": lambda d, i: d.obs.phase_obs_num[i],
+    "RCV_CLK": lambda d, i: d.obs.receiver_clock[i], "TROTOT": lambda d, i: d.obs.trop_zenith_total[i],
+    "SIG_TROTOT": lambda d, i: d.obs.trop_zenith_total_sigma[i],
 }
+TMS_PRINTED = {"YEAR": 5, "NOBSC": 0, "NOBSP": 0}  # digits the format description promises (default 4)
 
 
 def tms_value(dset, field: str, i: int):
@@ -579,7 +607,10 @@ def case_tms(run: Run, rng, dft: List[Tuple[str, str]]):
         prec = DT_PREC.get(c)
         for r, k in enumerate(order):
             src = first_of[t_us[idx_sta[k]]]
-            want = tms_value(d, fieldof[c], src)
+            if c not in TMS_MEANING:
+                continue
+            want = TMS_MEANING[c](d, src)
+            prec = TMS_PRINTED.get(c, 4)
             g = np.atleast_1d(got)[r]
             if isinstance(want, str):
                 if str(g) != want:
